@@ -1134,7 +1134,10 @@ func (r *Runner) readLine(ctx context.Context, raw bool) ([]byte, error) {
 func (r *Runner) cancelStdinReads(ctx context.Context) (done func()) {
 	stdin := r.stdin
 	stopc := make(chan struct{})
+	tok := verifSpawn()
 	stop := context.AfterFunc(ctx, func() {
+		verifStart(tok)
+		defer verifEnd()
 		stdin.SetReadDeadline(time.Now())
 		close(stopc)
 	})
